@@ -26,8 +26,8 @@ type Config struct {
 // FileOp: the controller (playing the agent doing its work) creates or changes
 // a file in the project, e.g. a result file.
 type FileOp struct {
-	Path    string `json:"path"`           // relative to project root
-	Kind    string `json:"kind"`           // file dir symlink remove
+	Path    string `json:"path"` // relative to project root
+	Kind    string `json:"kind"` // file dir symlink remove
 	Content string `json:"content,omitempty"`
 	Target  string `json:"target,omitempty"` // symlink target
 }
@@ -42,7 +42,7 @@ type DiskOp struct {
 
 type BatchSpec struct {
 	Cmds      []Cmd   `json:"cmds"`
-	Strategy  string  `json:"strategy"`            // seq rand sticky preempt replay
+	Strategy  string  `json:"strategy"` // seq rand sticky preempt replay
 	SchedSeed uint64  `json:"sched_seed,omitempty"`
 	PreemptA  int     `json:"preempt_a,omitempty"`
 	PreemptK  int     `json:"preempt_k,omitempty"`
